@@ -13,13 +13,15 @@ claim("C11",
 
 claim("C10",
       "CFG must-pass-through / dominance on the checkpoint and step-loop code, who-may-call on torch.save, typed-dictionary key-flow "
-      "(writer vs reader keys), resume-path positioning of every sink",
+      "(writer vs reader keys), resume-path positioning of every sink, interprocedural flow-sensitive loop-carried-state analysis of every engine's step (must-write dataflow)",
       "Decides the crash-consistency protocol on all CFG paths: atomic temp+os.replace checkpoint write reached by every "
       "save_checkpoint; every output event of an iteration flushed before the checkpoint on every path; every key the resume "
       "code reads is written by a checkpoint writer; every sink reopened on resume positions itself from step_offset (HDF5 "
       "cursors, XYZ truncation); RNG state captured/restored in the right order with no re-seed; absolute step labels; no "
-      "one-time initialisation repeated on resume. These are for-all-crash-point statements because they are path/ordering "
-      "facts, not sampled crashes.",
+      "one-time initialisation repeated on resume; every attribute of the driver or the molecule that carries a value from one step into the "
+      "next (per concrete engine class) is written by the checkpoint writer chain and assigned on the resume path, or recomputed by initialize() "
+      "from restored molecule state, or is an inventoried scratch/report attribute. These are for-all-crash-point statements because they are "
+      "path/ordering facts, not sampled crashes.",
       "Does not decide byte equality of HDF5 datasets, torn writes inside libhdf5, or that the restored tensors are numerically "
       "sufficient to reproduce the trajectory. Trusted: CFG builder, key-flow inference, os.replace atomicity.",
       "DESIGN.md section 4, C10")
